@@ -193,7 +193,13 @@ func runC04(c *Check) {
 								}
 							}
 						}
-						if elemOK && len(call.Call.Args) > 1 && derivesFromValue(call.Call.Args[1], getNext) {
+						fromNext := len(call.Call.Args) > 1 && derivesFromValue(call.Call.Args[1], getNext)
+						for _, av := range appendedValues(call) {
+							if derivesFromValue(av, getNext) {
+								fromNext = true
+							}
+						}
+						if elemOK && fromNext {
 							txAppends = append(txAppends, call)
 						}
 					}
